@@ -51,17 +51,18 @@ func explore(args []string) {
 	harness := fs.String("harness", "/verif/harness", "")
 	entry := fs.String("entry", "", "")
 	workers := fs.Int("workers", 16, "")
-	solver := fs.String("solver", "z3", "")
+	solver := fs.String("solver", "z3-new", "")
 	maxPaths := fs.Int64("max-paths", 0, "")
 	verbose := fs.Bool("v", false, "")
 	budget := fs.Int("budget", 60, "seconds")
+	dump := fs.String("dump", "", "directory for replay files of violations")
 	fs.Parse(args)
 	P, err := gosym.Load(*repo, loadOverlay(*repo, *harness), "verif")
 	if err != nil {
 		fmt.Fprintln(os.Stderr, "load:", err)
 		os.Exit(2)
 	}
-	res, err := P.Explore(gosym.Config{Entry: *entry, Workers: *workers, Solver: *solver, MaxPaths: *maxPaths, Verbose: *verbose, SampleMod: 1, MaxSamples: 3, Deadline: time.Now().Add(time.Duration(*budget) * time.Second)})
+	res, err := P.Explore(gosym.Config{Entry: *entry, Workers: *workers, Solver: *solver, MaxPaths: *maxPaths, Verbose: *verbose, SampleMod: 101, MaxSamples: 3, Deadline: time.Now().Add(time.Duration(*budget) * time.Second)})
 	if err != nil {
 		fmt.Fprintln(os.Stderr, "explore:", err)
 		os.Exit(2)
@@ -69,8 +70,22 @@ func explore(args []string) {
 	fmt.Printf("paths=%d done=%d pruned=%d forks=%d steps=%d exhaustive=%v wall=%s queries=%d solverwall=%s z3asserts=%d rewr=%d\n",
 		res.Paths, res.Done, res.Pruned, res.Forks, res.Steps, res.Exhaustive, res.Wall, res.Queries, res.SolverWall, res.AssertsZ3, res.AssertsRewr)
 	fmt.Println("witnesses:", res.Witnesses)
-	for _, v := range res.Violations {
-		fmt.Printf("VIOL %v model=%v\n", v.Violations, v.Model)
+	seen := map[string]bool{}
+	for i, v := range res.Violations {
+		for _, vv := range v.Violations {
+			if seen[vv.Clause] {
+				continue
+			}
+			seen[vv.Clause] = true
+			fmt.Printf("VIOL %s %s obs=%v\n", vv.Clause, vv.Detail, v.Observes)
+			if *dump != "" {
+				p2 := v
+				p2.Model = vv.Model
+				f := filepath.Join(*dump, fmt.Sprintf("v%d.json", i))
+				writeJSON(f, buildReplay("X", *entry, p2, vv.Clause, "assert"))
+				fmt.Println("  replay:", f)
+			}
+		}
 	}
 	for _, v := range res.Fuel {
 		fmt.Printf("FUEL %s\n", v.Detail)
